@@ -3,11 +3,6 @@ pub open spec fn crlf() -> Seq<char> { seq!['\r', '\n'] }
 pub open spec fn colon_sp() -> Seq<char> { seq![':', ' '] }
 pub open spec fn sp() -> Seq<char> { seq![' '] }
 
-pub type HV = (Seq<char>, Seq<char>);
-
-pub open spec fn hv(h: Header) -> HV { (h.name@, h.value@) }
-pub open spec fn hvs(hs: Seq<Header>) -> Seq<HV> { Seq::new(hs.len(), |i: int| hv(hs[i])) }
-
 // field-name ":" SP field-value CRLF   (left-nested in emission order)
 pub open spec fn header_line(h: HV) -> Seq<char> {
     SYMBOL.empty_string@ + h.0 + Header::NAME_VALUE_SEPARATOR@ + h.1 + SYMBOL.new_line_carriage_return@
@@ -111,12 +106,6 @@ pub proof fn lemma_render_acc_snoc(acc: Seq<char>, hs: Seq<HV>, k: int)
     let a = hs.subrange(0, k + 1);
     assert(a.drop_last() =~= hs.subrange(0, k));
     assert(a.last() == hs[k]);
-}
-
-pub proof fn lemma_hvs_push(hs: Seq<Header>, h: Header)
-    ensures hvs(hs.push(h)) == hvs(hs).push(hv(h)),
-{
-    assert(hvs(hs.push(h)) =~= hvs(hs).push(hv(h)));
 }
 
 pub proof fn lemma_cat_views_n(v: Seq<Seq<char>>)
